@@ -126,7 +126,7 @@ def gen_case(rng, tier):
             rf['target'] = gen.path_str(rf['loc'])
             specials += 1
         elif r < 0.91:
-            rf['target'] = rng.choice(['nope', 't0.missing.deeper', 't0[99]', 'zz.y'])
+            rf['target'] = rng.choice(['nope', 't0.missing.deeper', 't0[99]', 'zz.y', ''])      # ('' is the root: it contains the reference itself)
             specials += 1
         else:
             rf['target'] = gen.path_str(rng.choice(terminals))
@@ -254,6 +254,8 @@ def run(case):
         if T is None:
             expected_fail = True
     if not expected_fail and container_cycle(plan):
+        expected_fail = True
+    if any(r['target'] == '' for r in refs):
         expected_fail = True
     feats = ['refs=%d' % min(len(refs), 12), 'maxchain=%d' % min(maxhops, 10)]
     mon = _mon['m']
